@@ -281,7 +281,12 @@ def check_detection(spec: dict) -> dict:
                     classes.append("extender_admitted")
                 # an admitted gene was reached from an anchor or another admitted gene no further away than the cutoff
                 inside_legit = [g for g in legit if ring.contains(proto["core"], genes[g]["loc"])]
-                for gene in admitted:
+                # (not on a ring once the core reaches half the record: which way round such a group is spanned is not
+                # fixed by the statement, and the longer way round holds genes that nothing admitted)
+                wide = circular and 2 * len(got) >= length
+                if wide:
+                    classes.append("extender_core_at_least_half_ring_unasserted")
+                for gene in ([] if wide else admitted):
                     if not any(other != gene and dist(gene, other) <= cutoff for other in inside_legit):
                         raise Violation("extender_overreach", {"rule": name, "core": proto["core"], "gene": gene,
                                                                "cutoff": cutoff})
